@@ -262,6 +262,31 @@ def edge_programs():
     ]
     for m in misc:
         out.append(("misc", m))
+    # recursive / mutually recursive named constraints: every pair/triple of arms x every value x every use site
+    arms = ["c", "\"\"", "1", "[c]", "{k = c}", "{k = [c]}", "in 1..5", "d", "[d]", "NULL", "[[c]]", "{k = {j = c}}"]
+    vals = ["\"x\"", "1", "7", "[]", "[[1]]", "[[\"s\"], \"t\"]", "{k = \"x\"}", "{k = [{k = []}, 1]}", "{k = {k = {k = 1}}}", "NULL", "true"]
+    uses = ["let v :: c = %s;", "let f = func (p :: c) => p; let v = f(%s);", "let t = {fld :: c = %s};",
+            "let m = module {p :: c = %s} => {let q = mod.p;}; let v = m{};", "let v :: [c] = [%s];"]
+    combos = []
+    for i, a in enumerate(arms):
+        combos.append([a])
+        for b in arms[i + 1:]:
+            combos.append([a, b])
+            combos.append([b, a])
+    combos += [["c", "\"\"", "[c]"], ["[c]", "c", "1"], ["d", "c", "\"\""], ["{k = c}", "\"\"", "c"]]
+    n = 0
+    for ci, combo in enumerate(combos):
+        cdef = "constraint c = " + " | ".join(combo) + "; "
+        ddefs = ["", "constraint d = c | 1; ", "constraint d = \"\" | [c] | d; "] if any("d" in a for a in combo) else [""]
+        for di, ddef in enumerate(ddefs):
+            for vi, v in enumerate(vals):
+                # each (combo, value) pair is seen at one use site, rotating through them; the plain let at every pair with a self arm
+                use = uses[(ci + vi + di) % len(uses)]
+                order = (ddef + cdef) if (ci + vi) % 2 else (cdef + ddef)
+                out.append(("recursive-constraint", order + use % v))
+                if "c" in combo and use is not uses[0]:
+                    out.append(("recursive-constraint", order + uses[0] % v))
+                n += 1
     return out
 
 
